@@ -7,6 +7,8 @@ import (
 	"encoding/json"
 	"fmt"
 	"os"
+	"runtime/debug"
+	"strconv"
 	"strings"
 
 	"github.com/vektah/gqlparser/v2/verifsim"
@@ -89,7 +91,27 @@ func modeID(s string) int32 {
 	return 0
 }
 
+var ballast [][]byte
+
+// perturbHeap gives this process a heap layout and GC rhythm of its own
+// (VERIF_BALLAST=n): anything the library derives from addresses or allocation
+// order then differs between the fresh processes whose results are compared.
+func perturbHeap() {
+	n, _ := strconv.Atoi(os.Getenv("VERIF_BALLAST"))
+	if n <= 0 {
+		return
+	}
+	for i := 0; i < n*53; i++ {
+		b := make([]byte, 16+(i*i*7+n*131)%4099)
+		if i%3 != 0 {
+			ballast = append(ballast, b)
+		}
+	}
+	debug.SetGCPercent(25 + (n*37)%300)
+}
+
 func main() {
+	perturbHeap()
 	if len(os.Args) < 2 {
 		fatal(2, "usage: sim <c10|c10-replay|c10-digest|c11|c11-replay|info> ...")
 	}
